@@ -125,6 +125,14 @@ def _canon(expr):
                 if not re.search(r'%[^dis%]', t) and '%%' not in t and '{' not in t:
                     args = list(n.right.elts) if isinstance(n.right, ast.Tuple) else [n.right]
                     return ast.Call(func=ast.Name(id='FMT', ctx=ast.Load()), args=[ast.Constant(re.sub(r'%[dis]', '{}', t))] + args, keywords=[])
+            # 'a' + FMT(t, x) -> FMT('a' + t, x)   /   FMT(t, x) + 'b' -> FMT(t + 'b', x)
+            if isinstance(n.op, ast.Add):
+                def _fmt(x):
+                    return isinstance(x, ast.Call) and isinstance(x.func, ast.Name) and x.func.id == 'FMT' and x.args and isinstance(x.args[0], ast.Constant)
+                if isinstance(n.left, ast.Constant) and isinstance(n.left.value, str) and '{' not in n.left.value and _fmt(n.right):
+                    return ast.Call(func=ast.Name(id='FMT', ctx=ast.Load()), args=[ast.Constant(n.left.value + n.right.args[0].value)] + list(n.right.args[1:]), keywords=[])
+                if isinstance(n.right, ast.Constant) and isinstance(n.right.value, str) and '{' not in n.right.value and _fmt(n.left):
+                    return ast.Call(func=ast.Name(id='FMT', ctx=ast.Load()), args=[ast.Constant(n.left.args[0].value + n.right.value)] + list(n.left.args[1:]), keywords=[])
             # '!' + x -> FMT('!{}', x)
             if isinstance(n.op, ast.Add) and isinstance(n.left, ast.Constant) and isinstance(n.left.value, str) and '{' not in n.left.value \
                     and isinstance(n.right, ast.Name):
@@ -485,7 +493,9 @@ def run(ck, tier):
         if fn is None:
             continue
         val = fn.params[1]
-        for p in cx.enum(fn, b, max_depth=0):
+        from ..paths import SelfResolver as _SR8
+        res8 = _SR8(cx.idx, stop=lambda f_: f_.cls is None or not f_.name.startswith('_') or f_.name.startswith('__') or f_.name in ('_pack_words', '_unpack_words'))
+        for p in cx.enum(fn, b, max_depth=2, resolver=res8):      # a private 'pack and append' helper is part of the adder; the word helpers are decided by R2
             if p.exit and p.exit[0] == 'exc':
                 continue
             annotate(p, heap=False)
